@@ -25,7 +25,12 @@ SPEC = dict(
          "settings are not counted as separate cases); coverage.distinct_nontrivial_conditions = distinct "
          "(schema, layout, condition) among sampled non-trivial cases. Plans with >= 3 used key columns (quick: s,i,time; "
          "i,j,k; sw,iw,k; i,j,k,l) add the 'deep' families: pairs of comparison atoms on two different key columns and "
-         "one atom per column on three (thorough: four) key columns, on records whose marks differ in any key column",
+         "one atom per column on three (thorough: four) key columns, on records whose marks differ in any key column. "
+         "Skip-index part, several indexed columns at once (readers from CreateSKFileReaders, chained by Scan): bloom filter "
+         "over 2 (thorough 3) string columns, ip bloom filter over 2 columns, full-text bloom filter over 2 columns, bloom "
+         "filter + ip bloom filter together (two readers, both orders), min-max over 2 columns; every tree of <= 2 "
+         "(thorough 3) atoms over MATCHPHRASE / = / != / >= / IPINRANGE atoms on every indexed column, the full-text pseudo "
+         "column and a non-indexed string column",
     assumptions=[
         "rows are in the order the column-store writer's sorter (lib/record SortData / Pad*Slice) produces: nulls first "
         "(boolean null ties with false); the harness enumerates every record that is non-decreasing under that order",
@@ -37,6 +42,14 @@ SPEC = dict(
         "min-max index: the repository has no writer; the index record is laid out as MinMaxIndexReader indexes it "
         "(row k lower bound, row k+1 upper bound of fragment k); set index: reader only (no writer exists)",
         "an error or a panic of the reader is not a pruning decision and is counted, not reported",
+        "multi-column skip part: index files are written by the production writers' CreateAttachIndex (one <data>.<column>.bf.init "
+        "per column, renamed as immutable.RenameIndexFiles does); the attached full-text writer names its file "
+        "<data>.fullText.bf while the attached full-text reader opens <data>.bloomfilter_fullText.bf - the harness gives the "
+        "file the name the reader asks for; only the attached (local, line) filter files are exercised, not the detached "
+        "OBS vertical filters",
+        "row semantics of IPINRANGE = binaryfilterfunc.IsIpInRange, of an atom on the full-text pseudo column __log___ = OR "
+        "of the atom over the columns of the full-text index (binaryfilterfunc genRPNElementByFullText)",
+        "CreateSKFileReaders returns the readers in map order: with two indexes both orders are executed",
     ],
 )
 
@@ -68,7 +81,8 @@ MANIFEST = dict(
     engine="enumx",
     technique="bounded exhaustive enumeration (odometer) of sorted key records x fragment layouts x condition trees x time "
               "ranges x reader settings (1-4 key columns) on the real index writer and readers (PKIndexWriterImpl.Build, NewKeyCondition, "
-              "PKIndexReaderImpl.Scan, bloom-filter writer/reader, min-max and set readers) with a brute-force row oracle",
+              "PKIndexReaderImpl.Scan, bloom-filter / ip / full-text writers' CreateAttachIndex, CreateSKFileReaders, "
+              "SKIndexReaderImpl.Scan over every reader, min-max and set readers) with a brute-force row oracle",
     text="Every record of <= 5 (thorough 6) rows over 1-4 key columns (string {A,C,D}, integer {1,2}/{1,2,4}, float, boolean, "
          "time; nulls in the order the writer's sorter produces them), every fragment size 1-3 (thorough: every composition), "
          "every condition tree of <= 3 atoms over key and non-key columns with = != < <= > >= MATCHPHRASE (literals on, between "
@@ -80,11 +94,22 @@ MANIFEST = dict(
          "thorough: full alphabet) and, thorough, on four columns. "
          "Each fragment that holds a row satisfying the condition (brute force, comparison with null is false) must be inside "
          "the ranges returned by Scan; the same for bloom-filter / min-max / set skip-index readers' MayBeInFragment per block. "
+         "Several indexed columns at once, on the query's own path (CreateAttachIndex files, CreateSKFileReaders, ReInit + Scan "
+         "per reader): records of <= 2 rows (single atoms thorough 3; bloom + ip together 3) over two bloom-filter string columns "
+         "(thorough three) whose tokens do / do not occur in the other column of the same and of the other block, two "
+         "ip-bloom-filter columns, two full-text columns, one bloom-filter plus one ip column (two chained readers, both "
+         "orders), every block layout, every tree of <= 2 atoms (thorough 3) with AND / OR in both operand orders over "
+         "MATCHPHRASE (token present in the block, in another block only, nowhere; phrases), =, !=, >=, IPINRANGE (/8 /16 /20 "
+         "and /0) on each indexed column, on the full-text pseudo column and on a non-indexed string column. "
          "Soundness of pruning only (over-reading is allowed). Exhaustive within these bounds.",
     note="Trusts: Go runtime; the harness' row evaluator; the order model of the writer's sorter (self-checked against "
          "record.SortHelper at start-up); tokenizer.SimpleTokenFinder as the meaning of MATCHPHRASE. min-max and set have no "
          "writer in the repository (index laid out as the reader indexes it). Three defects found by this check are fixed in "
          "the repository (right-bound mark, null key as +infinity, in-place rewrite of the cached index record); known "
-         "findings left: null boolean key tie (thorough), set reader stub. Errors/panics of a reader are counted, not "
+         "findings left: null boolean key tie (thorough), set reader stub, and three found by the multi-column skip part with a "
+         "fix proposed each (ip index probes atoms of other columns in the first column's filter; IPINRANGE prefix < 8 prunes "
+         "every block; full-text index probes the literal of != < <= > >= as a phrase). A violation is filed under one of these "
+         "causes only if the real readers keep every needed block once the atoms of that cause class are replaced by an atom "
+         "on the non-indexed column. Errors/panics of a reader are counted, not "
          "reported. Quick has four key columns only with 1-atom trees and atom pairs; 4-atom trees are thorough only.",
 )
